@@ -53,6 +53,9 @@ CHECKS = {
  'C19': dict(technique='representation-equivalence differential (same state from every raw form), exhaustive card text round trip, rejection table, swept postconditions of divmod/rake',
              text='Held on the generated vectors and forms: every representation yields the same antes/blinds/stacks and the same full state; all 70 rank x suit cards round-trip; each documented invalid layout is refused and its valid neighbour accepted; helper parts add up over swept inputs.',
              note='State equality over all dataclass fields except callables.', ref='DESIGN.md §2 C19'),
+ 'C11': dict(technique='specification table compared with every created state (static, complete per run) + dynamic monitors on playouts (offered raise intervals per structure, cap, hole card facings, low halves)',
+             text='The static comparison covers all 12 classes and 11 variant codes completely on every run; the dynamic monitors held on the generated hands of every variant.',
+             note='Trusted base: the SPEC table in vflib/monitors/c11.py states what the game names mean.', ref='DESIGN.md §2 C11'),
 }
 PENDING_REASON = 'check not built yet in this revision (runtime monitor planned, see DESIGN.md §2); not claimed until it exists'
 
